@@ -909,7 +909,9 @@ def fixed_docs():
             F(21, "bools", ("list", ("bool",)), "optional"), F(22, "bm", ("map", ("bool",), ("bool",)), "optional"),
             F(23, "raw", ("binary",), "optional", ann={"pilota.rust_type": "vec"}), F(24, "owned", ("string",), "optional", ann={"pilota.rust_type": "string"}),
             F(25, "sorted_ids", ("set", ("i32",)), "optional", ann={"pilota.rust_type": "btree"}), F(26, "sorted_map", ("map", ("string",), ("i32",)), "optional", ann={"pilota.rust_type": "btree"}),
-            F(27, "shared", R("Inner"), "optional", ann={"pilota.rust_wrapper_arc": "true"}), F(28, "raw_req", ("binary",), "default", ann={"pilota.rust_type": "vec"})]},
+            F(27, "shared", R("Inner"), "optional", ann={"pilota.rust_wrapper_arc": "true"}), F(28, "raw_req", ("binary",), "default", ann={"pilota.rust_type": "vec"}),
+            F(29, "sorted_names", ("set", ("string",)), "optional", ann={"pilota.rust_type": "btree"}), F(30, "sorted_blobs", ("set", ("binary",)), "optional", ann={"pilota.rust_type": "btree"}),
+            F(31, "sorted_inners", ("set", R("Inner")), "optional", ann={"pilota.rust_type": "btree"}), F(32, "named", ("map", ("string",), R("Inner")), "optional", ann={"pilota.rust_type": "btree"})]},
         {"kind": "exception", "name": "Oops", "fields": [F(1, "why", ("string",))]},
         {"kind": "service", "name": "Svc", "methods": [
             {"name": "get", "ret": R("Outer"), "oneway": False, "args": [F(1, "req", R("Inner")), F(2, "n", ("i32",))], "throws": [F(1, "e", R("Oops"))]},
